@@ -27,6 +27,9 @@ FLAVOURS = {
     'asan-fs16': {'cc': 'gcc', 'cflags': SAN + ' -DNDEBUG', 'lib_cflags': '-ffreestanding -U__UINT_FAST16_TYPE__ -D__UINT_FAST16_TYPE__=__UINT16_TYPE__'},
     # a compiler that does not claim GCC compatibility (as MSVC, or clang-cl): code under #ifdef __GNUC__ / #else
     'clang-nognu': {'cc': 'clang', 'cflags': '-O1 -g -fno-omit-frame-pointer -fsanitize=address,undefined -fno-sanitize-recover=all -fno-sanitize=object-size -DNDEBUG', 'lib_cflags': '-fgnuc-version=0'},
+    # an ABI that sizes every enum by its enumerators (gcc -fshort-enums; the default of arm-none-eabi and other bare-metal ABIs): library AND
+    # callers are compiled that way, as they would be on such a target (pv_norm.c, the only file that talks to the prebuilt libutf8proc, is not)
+    'asan-shortenum': {'cc': 'gcc', 'cflags': SAN + ' -DNDEBUG -fshort-enums', 'no_flag_for': {'pv_norm.c': ['-fshort-enums']}},
     'asan-cp932': {'cc': 'gcc', 'cflags': SAN + ' -DNDEBUG', 'lib_cflags': '-fexec-charset=CP932'},
     'tsan':     {'cc': 'gcc', 'cflags': '-O1 -g -fsanitize=thread -DNDEBUG'},
     # libc entry points reachable from the library are interposed at link time (C11, C15, C18)
@@ -284,6 +287,8 @@ PROPS['C14'] = {
              {'name': 'msan', 'flavour': 'msan', 'driver': 'drv_c14', 'env': {'PV_SCALE': '25', 'PV_NO_STATIC_MONITOR': '1', 'PV_SKIP_SECTIONS': 'huge'}, 'shards': 4, 'timeout': 1800},
              {'name': 'memcheck', 'flavour': 'plain', 'driver': 'drv_c14', 'env': {'PV_SCALE': '4'}, 'shards': 12, 'tiers': ('thorough',), 'log_scan': 'memcheck',
               'wrapper': ['valgrind', '--tool=memcheck', '--quiet', '--error-exitcode=0', '--track-origins=no', '--undef-value-errors=yes'], 'timeout_thorough': 7200},
+             # the shared object as shipped inside a host program that defines every non-API global of the library (whatever the object files export today)
+             {'name': 'shared-hostile-host', 'flavour': 'shared', 'driver': 'drv_c14', 'env': {'PV_SCALE': '3', 'PV_SKIP_SECTIONS': 'huge,smallstack'}, 'shards': 2, 'timeout': 1800},
              {'name': 'fuzz-phrase', 'kind': 'fuzz', 'flavour': 'fuzz', 'driver': 'fuzz_api', 'mode': 0, 'runs_quick': 150000, 'runs_thorough': 5000000},
              {'name': 'fuzz-password', 'kind': 'fuzz', 'flavour': 'fuzz', 'driver': 'fuzz_api', 'mode': 1, 'runs_quick': 100000, 'runs_thorough': 3000000},
              {'name': 'fuzz-buffer', 'kind': 'fuzz', 'flavour': 'fuzz', 'driver': 'fuzz_api', 'mode': 2, 'runs_quick': 200000, 'runs_thorough': 8000000}],
@@ -315,7 +320,7 @@ PROPS['C18'] = {
              {'name': 'uchar-wrap', 'flavour': 'uchar-wrap', 'driver': 'drv_c18', 'env': {'PV_SCALE': '10'}, 'shards': 4},
              # the shared object as shipped, inside a host program that defines (read-only / aborting) symbols with the names of all internal globals of the library
              {'name': 'shared-hostile-host', 'flavour': 'shared', 'driver': 'drv_c03', 'env': {'PV_SCALE': '5'}, 'shards': 2}],
-    'require': {'rand.creates_ok': 50000, 'rand.single_bit_patterns_ok': 152, 'rand.creates_with_repeated_random_output': 5000, 'rand.creates_with_out_of_range_clock': 3000, 'inject.histories_ok': 1500, 'inject.struct_unmapped_afterwards': 500,
+    'require': {'inject.birthday_from_libc_clock': 300, 'rand.creates_ok': 50000, 'rand.single_bit_patterns_ok': 152, 'rand.creates_with_repeated_random_output': 5000, 'rand.creates_with_out_of_range_clock': 3000, 'inject.histories_ok': 1500, 'inject.struct_unmapped_afterwards': 500,
                 'inject.libc_fallback_observed.alloc/malloc': 300, 'inject.libc_fallback_observed.free': 300, 'inject.libc_fallback_observed.time': 300,
                 'inject.last_table.time0.alloc0.free0': 100, 'inject.last_table.time1.alloc1.free1': 100, 'inject.old_seed_freed_after_reinjection': 50},
 }
@@ -359,7 +364,7 @@ MANIFEST_TEXT['C20'] = {'technique': 'runtime monitoring: ThreadSanitizer build 
 # Configuration stripes: "which code is compiled" is an input of every property (DESIGN.md 2.9, lessons i and v).  Every functional driver
 # that does not need the libc interposition flavours also runs a thin stripe of its workload on: a library built with unsigned plain char,
 # a clang build, -march=native, MemorySanitizer, a non-UTF-8 execution charset, and the assertion-enabled build.
-_AXES = [('nognu', 'clang-nognu', '6'), ('fs16', 'asan-fs16', '6'), ('uchar', 'uchar', '8'), ('clang', 'clang-asan', '8'), ('native', 'asan-native', '8'), ('msan', 'msan', '8'), ('cp932', 'asan-cp932', '5'), ('asan-dbg', 'asan-dbg', '6')]
+_AXES = [('shortenum', 'asan-shortenum', '6'), ('nognu', 'clang-nognu', '6'), ('fs16', 'asan-fs16', '6'), ('uchar', 'uchar', '8'), ('clang', 'clang-asan', '8'), ('native', 'asan-native', '8'), ('msan', 'msan', '8'), ('cp932', 'asan-cp932', '5'), ('asan-dbg', 'asan-dbg', '6')]
 for _p in ('C01', 'C02', 'C03', 'C04', 'C05', 'C06', 'C07', 'C08', 'C09', 'C10', 'C12', 'C14', 'C17'):
     _runs = PROPS[_p]['runs']
     _drv = _runs[0]['driver']
